@@ -77,6 +77,8 @@ impl Fsyncer {
     /// initiated yet, this will block until one is both started and completed. After consuming the result,
     /// subsequent calls will block until the next `fsync()` operation finishes.
     pub fn wait(&self) -> Result<(), std::io::Error> {
+        #[cfg(feature = "verif")]
+        let _verif_waiter = crate::verif::lazy::fsyncer_waiting(Arc::as_ptr(&self.shared) as usize);
         let mut s_guard = self.shared.s.lock();
         self.shared
             .cv
@@ -106,6 +108,8 @@ fn worker(fd: Arc<File>, shared: Arc<Shared>) {
         assert!(matches!(&*s_guard, State::Started | State::Done(_)));
         drop(s_guard);
 
+        #[cfg(feature = "verif")]
+        crate::verif::lazy::fsyncer_gate(Arc::as_ptr(&shared) as usize);
         #[cfg(feature = "verif")]
         let verif_injected = {
             use std::os::fd::AsRawFd as _;
